@@ -143,4 +143,20 @@ Section Sample.
   (* G_1 (G_2 (... X)) *)
   Definition gains_apply (n : nat) (gs : list mat) (X : mat) : mat :=
     fold_right (fun G acc => mmul n n n G acc) X gs.
+  (* ---- vocabulary of the statements in Props/C13.v ---- *)
+  Fixpoint zipw {A B C : Type} (f : A -> B -> C) (l1 : list A) (l2 : list B) : list C :=
+    match l1, l2 with
+    | x :: r1, y :: r2 => f x y :: zipw f r1 r2
+    | _, _ => []
+    end.
+  (* all draws zero *)
+  Definition zeros_like (n : nat) (zs : list mat) : list mat := map (fun _ => mzero n 1) zs.
+  (* draws seen by forward sample k, newest first: [z_k; ...; z_0] *)
+  Fixpoint fwd_draws (zr : list mat) (zs : list mat) : list (list mat) :=
+    match zs with
+    | [] => []
+    | z :: r => (z :: zr) :: fwd_draws (z :: zr) r
+    end.
+  (* l-th unit draw *)
+  Definition unit_col (n l : nat) : mat := mk n 1 (fun i _ => delta i l).
 End Sample.
